@@ -442,8 +442,14 @@ func init() {
 			return nil
 		},
 		"(*sync.WaitGroup).Wait": func(m *M, fn *ssa.Function, a []Value) Value { m.wait(m.sched.wg(a[0].(Ptr))); return nil },
-		"(*sync.Mutex).Lock":     nop, "(*sync.Mutex).Unlock": nop,
-		"(*sync.RWMutex).Lock": nop, "(*sync.RWMutex).Unlock": nop, "(*sync.RWMutex).RLock": nop, "(*sync.RWMutex).RUnlock": nop,
+		// goroutines run to completion between blocking points, so a mutex never blocks; what it contributes is the
+		// lockset of the accesses made while it is held (footprint race check)
+		"(*sync.Mutex).Lock":      func(m *M, fn *ssa.Function, a []Value) Value { m.lockOp(a[0].(Ptr), false, 1); return nil },
+		"(*sync.Mutex).Unlock":    func(m *M, fn *ssa.Function, a []Value) Value { m.lockOp(a[0].(Ptr), false, -1); return nil },
+		"(*sync.RWMutex).Lock":    func(m *M, fn *ssa.Function, a []Value) Value { m.lockOp(a[0].(Ptr), false, 1); return nil },
+		"(*sync.RWMutex).Unlock":  func(m *M, fn *ssa.Function, a []Value) Value { m.lockOp(a[0].(Ptr), false, -1); return nil },
+		"(*sync.RWMutex).RLock":   func(m *M, fn *ssa.Function, a []Value) Value { m.lockOp(a[0].(Ptr), true, 1); return nil },
+		"(*sync.RWMutex).RUnlock": func(m *M, fn *ssa.Function, a []Value) Value { m.lockOp(a[0].(Ptr), true, -1); return nil },
 		"(*sync.Once).Do": func(m *M, fn *ssa.Function, a []Value) Value {
 			p := a[0].(Ptr)
 			// Once{done atomic.Uint32; m Mutex}: use a side table keyed by object
@@ -490,6 +496,18 @@ func init() {
 				}
 			}
 			return nil
+		},
+		"internal/abi.NoEscape":          func(m *M, fn *ssa.Function, a []Value) Value { return a[0] },
+		"internal/bytealg.MakeNoZero": func(m *M, fn *ssa.Function, a []Value) Value {
+			n, ok := m.force(a[0]).(Int)
+			if !ok || !n.conc || n.signed() < 0 || n.signed() > 1<<20 {
+				panic(engineErr("bytealg.MakeNoZero with a symbolic or huge length"))
+			}
+			ag := make(Agg, int(n.v))
+			for i := range ag {
+				ag[i] = cInt(8, false, 0)
+			}
+			return Slice{arr: m.newObj(ag), ln: len(ag), cp: len(ag)}
 		},
 		"errors.As":                      errorsAs,
 		"errors.Is":                      errorsIs,
